@@ -145,6 +145,8 @@ def calls_for(d):
         elif t in BAD:
             C.append(('setopt:bad', ['setopt 0 %s %s' % (optloc(name), hx(BAD[t]))]))
             C.append(('setopt:empty', ['setopt 0 %s %s' % (optloc(name), hx(''))]))
+        if t == 'str' and not hasp:
+            C.append(('setopt:null-text', ['setopt 0 %s -' % optloc(name)]))
         if 'w' in d.cbs:
             C.append(('setter:veto', ['v2mode 1', 'set%s 0 %s %s' % (t, hx(name), val_tok(t, GOODV[t][3])), 'v2mode 0']))
             if d.is_list:
